@@ -246,6 +246,12 @@ int KSI_TlvElement_serialize(const KSI_TlvElement *element, unsigned char *buf, 
 			if (res != KSI_OK) goto cleanup;
 
 			if (buf != NULL) {
+				/* Make sure the child fits in front of what has been written so far. */
+				if (tmpLen > buf_size - dat_len) {
+					res = KSI_BUFFER_OVERFLOW;
+					goto cleanup;
+				}
+
 				res = KSI_TlvElement_serialize(tmp, buf + buf_size - dat_len - tmpLen, tmpLen, NULL, KSI_TLV_OPT_NO_MOVE);
 				if (res != KSI_OK) goto cleanup;
 			}
